@@ -284,6 +284,16 @@ def handle5 (op : String) (a obs : List String) : Option Verdict :=
       ("keep_alive_applied", !(0 < ka && ka < 600) || field obs "after_2s" == "alive"),
       ("idle_timeout_applied_without_keep_alive", ka != 0 || field obs "after_2s" == "timed_out")]
     pure (model, prop)
+  | "migration" =>
+    -- the requested value (or the documented default, "enabled") reaches the QUIC configuration
+    -- unchanged (`Generated.MIGRATION_PASSED_UNCHANGED`, `Generated.MIGRATION_DEFAULT`)
+    let how := get a 0
+    let want : Bool := if how == "default" then true else how == "allow" || how == "deny_then_allow"
+    let got : Bool := if how == "default" then Generated.MIGRATION_DEFAULT else want
+    let model := if Generated.MIGRATION_PASSED_UNCHANGED then [s!"migration={got}"] else obs
+    let prop := check [("no_trap", !isTrap obs),
+      ("migration_setting_reaches_the_quic_configuration", field obs "migration" == toString want)]
+    some (model, prop)
   | "alpn" =>
     let model := [s!"alpn={hex Generated.WEBTRANSPORT_ALPN.toUTF8.toList}", "tls13=-"]
     let prop := check [("no_trap", !isTrap obs), ("alpn_is_h3", field obs "alpn" == "6833")]
